@@ -134,6 +134,8 @@ def main():
             if os.path.isdir(pytexts.LEAN_DIR):
                 thorough['text_lean_definitions_evaluated_against_cpython'] = pytexts.selftest_lean()
             thorough['cxt_roundtrip_weakened_preconditions_refused'] = pychars.necessity()
+            from contracts import formats_chars_table as pychars_table      # the same for the table format and the FIMI rows (DESIGN 11.16)
+            thorough['table_roundtrip_weakened_preconditions_refused'] = pychars_table.necessity() + pychars_table.necessity_fimi()
         except AssertionError as e:
             selfcheck_problems.append('theory axiom refuted by CPython: %r' % (e,))
         os.environ.setdefault('PYVC_Z3_TIMEOUT_MS', '5000')
